@@ -1448,6 +1448,11 @@ class DiskRefsContainer(RefsContainer):
                 if orig_ref != old_ref:
                     return False
 
+            # Remove the packed entry first, while the loose file (if any)
+            # still shadows it: otherwise readers, or a crash, in between
+            # would see the stale packed value come back.
+            self._remove_packed_ref(name)
+
             # remove the reference file itself
             try:
                 found = os.path.lexists(filename)
@@ -1458,7 +1463,6 @@ class DiskRefsContainer(RefsContainer):
             if found:
                 os.remove(filename)
 
-            self._remove_packed_ref(name)
             self._log(
                 name,
                 old_ref,
